@@ -273,7 +273,8 @@ def vformsLine (j : Json) : String :=
   let flows := (smLive cfg.expInclusive now s.flows).map (fun (k, v) => "flow/" ++ k ++ "=" ++ v)
   let ats := (smLive cfg.expInclusive now s.access).map (·.2)
   let cn := (smLive cfg.expInclusive now s.cnonce).map (·.2)
-  s!"vforms ans={String.intercalate ";" (r.1.map vresStr)} live=[{sortedStrs (codes ++ flows)}] at=[{sortedStrs ats}] cn=[{sortedStrs cn}]"
+  let calls := (runVFormCalls cfg 0 ⟨[], [], [], []⟩ reqs).map (String.intercalate ",")
+  s!"vforms ans={String.intercalate ";" (r.1.map vresStr)} live=[{sortedStrs (codes ++ flows)}] at=[{sortedStrs ats}] cn=[{sortedStrs cn}] calls=[{String.intercalate ";" calls}]"
 
 def step (u : Unit) (j : Json) : Unit × List String :=
   match jStr j "op" with
